@@ -701,7 +701,7 @@ func (c *Ctx) checkConnectFieldOrigins(r *Report) {
 			var descr []string
 			for _, o := range os {
 				descr = append(descr, o.String())
-				if !originIsField(o, pkPackets1, w[0], w[1]) {
+				if !originIsField(o, pkPackets1, w[0], w[1]) && !c.isMirrorField(o, w[0], w[1]) {
 					okAll = false
 				}
 			}
@@ -740,4 +740,36 @@ func (c *Ctx) checkConnectFieldOrigins(r *Report) {
 			}
 		})
 	}
+}
+
+// isMirrorField: the origin is a field of a gateway struct (the handler) that the package only ever assigns from the
+// given field of the incoming packet - the handler's copy of the CONNECT's client ID / keep-alive, read back by a
+// helper that builds the MQTT CONNECT.
+func (c *Ctx) isMirrorField(o Origin, srcType, srcField string) bool {
+	if !(o.Kind == "param" || o.Kind == "freevar") || len(o.Path) == 0 || o.Sliced {
+		return false
+	}
+	fld := o.Path[len(o.Path)-1]
+	rt := derefType(o.RootType())
+	if len(o.Path) > 1 || namedOf(rt) == nil || namedOf(rt).Obj().Pkg() == nil || namedOf(rt).Obj().Pkg().Path() != pkGateway {
+		return false
+	}
+	n, all := 0, true
+	for _, f := range c.repoFuncs("gateway") {
+		allInstrs(f, func(i ssa.Instruction) {
+			st, ok := i.(*ssa.Store)
+			if !ok {
+				return
+			}
+			fa, ok := st.Addr.(*ssa.FieldAddr)
+			if !ok || fieldName(fa.X.Type(), fa.Field) != fld || !types.Identical(derefType(fa.X.Type()), rt) {
+				return
+			}
+			n++
+			if !c.valueIsField(st.Val, pkPackets1, srcType, srcField) {
+				all = false
+			}
+		})
+	}
+	return n > 0 && all
 }
